@@ -80,6 +80,9 @@ pub struct Profile {
     /// 0 = none, 1 = with any use=, 2 = never required (wire checks: no value is ever generated for it)
     #[serde(default)]
     pub xml_lang: u8,
+    /// namespace URIs whose zeep abbreviation would be the reserved prefix `xml`
+    #[serde(default)]
+    pub reserved_prefix_uris: bool,
 }
 
 fn yes() -> bool {
@@ -124,6 +127,7 @@ impl Profile {
             full_perm: true,
             kind_mix: false,
             xml_lang: 0,
+            reserved_prefix_uris: true,
         }
     }
     /// switch a feature off by its tag name; returns false for an unknown tag
@@ -801,7 +805,11 @@ pub fn build(raw: &RawModel, p: &Profile) -> (Model, BuildStats) {
         }
         b.files.push(SFile {
             name: if i == 0 { "main.xsd".to_string() } else { format!("part{i}.xsd") },
-            ns: if p.colliding_abbrev && raw.files[0].perm % 2 == 0 {
+            ns: if p.reserved_prefix_uris && raw.files[0].perm % 5 == 1 {
+                // last segments that abbreviate to "xml": a prefix no other namespace may be bound to
+                b.stats.feat("ns.abbreviates-to-xml");
+                format!("http://example.org/{}/xml{}", ["schemas", "svc", "data"][i % 3], SEGS[i % SEGS.len()])
+            } else if p.colliding_abbrev && raw.files[0].perm % 2 == 0 {
                 format!("http://example.org/{}/types", SEGS[i % SEGS.len()])
             } else {
                 format!("http://example.org/{}/{}", ["schemas", "svc", "data"][i % 3], SEGS[i % SEGS.len()])
